@@ -48,8 +48,12 @@ def rename_tree(tree):
     handle(tree.body)
     return tree
 
-def make(mode, dst):
-    subprocess.check_call(['rsync', '-a', '--exclude', '.git', '--exclude', 'docs', os.environ.get('GSCAN_REPO', '/repo') + '/', dst + '/'])
+MODES = ('unparse', 'rename', 'shift')
+
+
+def make(mode, dst, root=None):
+    root = root or os.environ.get('GSCAN_REPO', '/repo')
+    shutil.copytree(os.path.join(root, 'gnpy'), os.path.join(dst, 'gnpy'), dirs_exist_ok=True)
     for p in pathlib.Path(dst, 'gnpy').rglob('*.py'):
         src = p.read_text()
         if mode == 'unparse':
